@@ -544,6 +544,158 @@ def location_check(e: Any, src: str) -> str | None:
     return None
 
 
+# ---------------------------------------------------------------- variable spans and undefined-variable locations
+
+
+class _Universal(dict):
+    """A mapping in which every look-up succeeds (and yields the mapping itself)."""
+
+    def __missing__(self, k: Any) -> Any:
+        return self
+
+    def __hash__(self) -> int:  # type: ignore[override]
+        return 1
+
+    def __eq__(self, o: object) -> bool:
+        return self is o
+
+
+_strict_env: Any = None
+
+
+def strict_env() -> Any:
+    global _strict_env
+    if _strict_env is None:
+        from liquid2 import Environment, StrictUndefined
+        _strict_env = Environment(undefined=StrictUndefined)
+    return _strict_env
+
+
+def _all_variables(an: Any) -> list[tuple[str, Any]]:
+    out = []
+    for group in (an.variables, an.globals, an.locals):
+        for name, vs in group.items():
+            for v in vs:
+                out.append((name, v))
+    return out
+
+
+def variable_spans(src: str) -> tuple[int, str | None]:
+    """For every variable that static analysis reports for `src` (analyze and
+    analyze_async): source[span] spells that variable's own path - re-parsing the
+    slice alone gives a path with the same segments that spans the whole slice -
+    and starts with the variable's root. (count, first failure)."""
+    import asyncio
+
+    from liquid2.exceptions import LiquidError
+
+    env = env_for(False)
+    try:
+        t = env.from_string(src)
+        an = t.analyze(include_partials=False)
+    except LiquidError:
+        return 0, None
+    except Exception:  # noqa: BLE001
+        return 0, None
+    try:
+        loop = asyncio.new_event_loop()
+        try:
+            an2 = loop.run_until_complete(t.analyze_async(include_partials=False))
+        finally:
+            loop.close()
+    except Exception as e:  # noqa: BLE001
+        return 0, f"variable-span: analyze_async raised {type(e).__name__} where analyze did not"
+    a1 = sorted((n, v.span.start, v.span.end, repr(v.segments)) for n, v in _all_variables(an))
+    a2 = sorted((n, v.span.start, v.span.end, repr(v.segments)) for n, v in _all_variables(an2))
+    if a1 != a2:
+        return len(a1), "variable-span: analyze_async reports other variable spans than analyze"
+    count = 0
+    for name, v in _all_variables(an):
+        sp = v.span
+        if sp.template_name not in ("", None) and sp.template_name != t.name:
+            continue
+        count += 1
+        a, b = sp.start, sp.end
+        if not (0 <= a < b <= len(src)):
+            return count, f"variable-span: {v} has span [{a},{b}) outside the source of length {len(src)}"
+        text = src[a:b]
+        root = v.segments[0]
+        if isinstance(root, str) and not (text.startswith(root) or text[0] == "["):
+            return count, f"variable-span: span [{a},{b}) of {v} is {text!r}, which does not start with its root {root!r}"
+        try:
+            an3 = env.from_string("{{ " + text + " }}").analyze(include_partials=False)
+        except Exception:  # noqa: BLE001
+            return count, f"variable-span: span [{a},{b}) of {v} is {text!r}, which is not a variable path"
+        whole = [w for _n, w in _all_variables(an3) if w.span.start == 3 and w.span.end == 3 + len(text)]
+        if text == str(v):
+            continue    # e.g. a keyword used as a range bound is reported as the variable of that name
+        if not whole or repr(whole[0].segments) != repr(v.segments):
+            return count, (f"variable-span: span [{a},{b}) of {v} is {text!r}, which reads as "
+                           f"{[str(w) for w in whole] or 'no single path'}, not as {v}")
+    return count, None
+
+
+def nested_path_check(src: str, nodes: list[dict], must_raise: bool) -> tuple[int, str | None]:
+    """`src` contains one generated variable path whose nested paths have known
+    positions (harness/lexgen.py nested_path). (1) analyze() must report exactly
+    those spans for those roots; (2) under StrictUndefined, with every root but
+    one bound to a mapping in which all look-ups succeed, the UndefinedError
+    (render and render_async) must carry the token of the unbound root's own
+    path - its start, its text - and print that line and column."""
+    import asyncio
+
+    from liquid2.exceptions import LiquidError, UndefinedError
+
+    env = env_for(False)
+    checks = 0
+    try:
+        an = env.from_string(src).analyze(include_partials=False)
+    except Exception as e:  # noqa: BLE001
+        return 0, f"variable-span: analysis of a valid generated source raised {type(e).__name__}: {src!r}"
+    got = sorted((n, v.span.start, v.span.end) for n, v in _all_variables(an) if n.startswith("nv"))
+    want = sorted({(nd["root"], nd["start"], nd["start"] + len(nd["text"])) for nd in nodes})
+    checks += len(want)
+    if sorted(set(got)) != want:
+        return checks, f"variable-span: analyze() reports {sorted(set(got))} for the nested paths at {want}"
+    u = _Universal()
+    senv = strict_env()
+    t = senv.from_string(src)
+    for nd in nodes:
+        data = {o["root"]: u for o in nodes if o is not nd}
+        data["a"] = "s"
+        for how in ("render", "render_async"):
+            err: Any = None
+            try:
+                if how == "render":
+                    t.render(**data)
+                else:
+                    loop = asyncio.new_event_loop()
+                    try:
+                        loop.run_until_complete(t.render_async(**data))
+                    finally:
+                        loop.close()
+            except UndefinedError as e:
+                err = e
+            except LiquidError as e:
+                return checks, f"undefined-location: {how} raised {type(e).__name__}, not UndefinedError, for unbound {nd['root']}"
+            except Exception:  # noqa: BLE001  (C02's business)
+                continue
+            if err is None:
+                if must_raise:
+                    return checks, f"undefined-location: {how} under StrictUndefined did not raise for unbound {nd['root']}"
+                continue
+            checks += 1
+            tok = err.token
+            if tok is None or tok.start != nd["start"] or src[tok.start:tok.stop] != nd["text"]:
+                where = None if tok is None else (tok.start, src[tok.start:tok.stop])
+                return checks, (f"undefined-location: {how}: {nd['root']!r} is unbound, its path {nd['text']!r} starts at "
+                                f"{nd['start']}, the error points at {where}")
+            lf = location_check(err, src)
+            if lf:
+                return checks, lf
+    return checks, None
+
+
 # ---------------------------------------------------------------- correspondence with one retry
 
 
